@@ -37,7 +37,26 @@ def merge_cover(dst: dict, src: dict):
                 d[k] = d.get(k, 0) + 1
 
 
+def _prune_stale_scratch():
+    """Scratch config dirs of cases whose worker was killed (timeouts, end of a run) are left behind: remove old ones."""
+    import shutil
+    import time
+
+    from .sim import _tmp_base
+
+    base = _tmp_base() or "/tmp"
+    try:
+        for name in os.listdir(base):
+            if name.startswith(("vfw-", "vfc11-", "vfc18-")):
+                path = os.path.join(base, name)
+                if time.time() - os.path.getmtime(path) > 1800:
+                    shutil.rmtree(path, ignore_errors=True)
+    except OSError:
+        pass
+
+
 def main(argv=None):
+    _prune_stale_scratch()
     ap = argparse.ArgumentParser()
     ap.add_argument("id")
     ap.add_argument("--tier", default=os.environ.get("VERIF_TIER", "quick"), choices=["quick", "thorough"])
